@@ -4,10 +4,10 @@ from vlib import *
 
 ID = "C25"
 COQ_FILES = ["Common/Bytes.v", "Common/Corr.v", "Model/Utf8.v", "Model/Lexer.v", "Proofs/Utf8.v", "Proofs/Lexer.v",
-             "Model/FastScan.v", "Proofs/FastScan.v", "Props/C25.v"]
+             "Model/FastScan.v", "Proofs/FastScanDecls.v", "Proofs/FastScanLex.v", "Proofs/FastScan.v", "Props/C25.v"]
 PROPS = "Props/C25.v"
-THEOREMS = ["C25_scan_tokens_of_decls", "C25_string_decode_agree", "C25_fast_lex_agree", "C25_fast_scan_total",
-            "C25_fast_string_total"]
+THEOREMS = ["C25_scan_tokens_of_decls", "C25_string_decode_agree", "C25_fast_lex_agree", "C25_fast_scan_accepted",
+            "C25_fast_scan_total", "C25_fast_string_total"]
 AXIOMS_OK = []
 TRUSTED = ["hand-written Gallina mirror of parser/fastscan/lexer.go (Lex, readNumber, readIdentifier, readStringLiteral incl. "
            "strconv.ParseInt on the escape digits, comments, BOM) and of the token loop of fastscan.Scan (Model/FastScan.v)",
@@ -415,7 +415,9 @@ CORPUS = [
     b"package", b"package ;", b"package .a;", b"package a..b;", b"package a b;", b"package a.;", b"package a. import \"x\";",
     b"import \"a\"\x00; import \"b\";", b"\x00import \"a\";", b"import \"a\x00b\";", b"/* unterminated import \"a\";", b"// c",
     b"/", b".", b".5", b"1.5e+", b"}}} import \"a\";", b"{ import \"a\"; }", b"( ] import \"a\"; ) import \"b\";",
-    b"message M { } } import \"a\";", b"< > import \"a\";", b"import \"a\" 1;", b"import \"a\"\nimport \"b\";",
+    b"message M { } } import \"a\";", b"< > import \"a\";", b"< import \"a\"; > import \"b\";", b"[ import \"a\"; ] import \"b\";",
+    b"{ import \"a\"; } import \"b\";", b"( import \"a\"; ) import \"b\";", b"< package a; > package b;", b"( { [ < > ] } ) ; import \"c\";",
+    b"( > import \"a\"; ) ; import \"b\";", b"> ; import \"a\";", b"} import \"a\";", b") import \"a\";", b"import \"a\" 1;", b"import \"a\"\nimport \"b\";",
     b"\xf0\x90\x80\x81", b"import \xf0\x90\x80\x81 ;", b"import \"a\" \xf0\x90\x80\x81 \"b\";", b"\xf0\x90\x80\x82 \xf0\x90\x80\x83 import",
     b"package a \xf0\x90\x80\x83 b;", b"package \xf0\x90\x80\x81;", b"\xff import \"a\";", b"import \"a\"\xff;",
     b"import \"a\nb\";", b"import 'a\\\nb';", b"import \"\\U0011FFFF\";", b"import \"\\UFFFFFFFF\";", b"import \"\\U80000000\";",
@@ -567,7 +569,7 @@ def run(ctx):
     for k in (1, len(CORPUS) + 3, len(CORPUS) + 4):
         if k < len(cases):
             ctx.sample({"class": cases[k][0], "source": cases[k][1].decode("latin-1")[:400]})
-    mism, err = coq_eval_mismatches("cases_C25", HEADER, terms, "fs_chk", shard_size=ctx.budget(150, 400))
+    mism, err = coq_eval_mismatches("cases_C25", HEADER, terms, "fs_chk", shard_size=ctx.budget(80, 400))
     if err:
         raise RuntimeError(err)
     for k in mism:
